@@ -36,8 +36,7 @@ def cases(tier, seed):
         spec = zoo.SPECS[name]
         for D in spec["dims"]:
             Ns = {1: [9, 12], 2: [6, 7], 3: [5, 6]}[D] if tier == "quick" else {1: [8, 9, 15, 24], 2: [5, 6, 9, 12], 3: [5, 6, 8]}[D]
-            if name.endswith("Velocity"):
-                Ns = [max(5, n) for n in Ns]
+            Ns = sorted({zoo.nontrivial_N(name, n) for n in Ns})
             orders = [None] if spec["linear"] else [1, 2, 3, 4]
             for N in Ns:
                 for o in orders:
@@ -55,7 +54,7 @@ def cases(tier, seed):
         for D in spec["dims"]:
             for o in (1, 2, 3, 4):
                 for rep in range(1 if tier == "quick" else 3):
-                    N = {1: 10 + rep, 2: 6 + rep, 3: 5 + rep % 2}[D]
+                    N = zoo.nontrivial_N(name, {1: 10 + rep, 2: 6 + rep, 3: 5 + rep % 2}[D])
                     out.append(dict(kind="fixed", cls=name, D=D, N=N, order=o, v=rep, rs=[seed, env.crc(name), D, o, rep, 3], cost=N ** D / 40 + 1))
     return out
 
